@@ -112,6 +112,11 @@ type c14Run struct {
 	// undo/redo brought back, as a NEW node, one that a collect step had purged
 	ever      map[string]bool
 	recreated string
+	// bags: contentBag per history position (what is there, regardless of where it stands);
+	// editedAfterRecreation: an Update was made after an undo/redo had re-created a node
+	bags                  []string
+	editedAfterRecreation bool
+	redoneAfterRecreation bool
 }
 
 func newC14Run(res *runner.CaseResult, rp c14Replay) *c14Run {
@@ -119,6 +124,7 @@ func newC14Run(res *runner.CaseResult, rp c14Replay) *c14Run {
 	d.SetActor(actorA)
 	r := &c14Run{res: res, doc: d, exact: rp.Exact, rp: rp}
 	r.states = []string{canonDoc(d)}
+	r.bags = []string{contentBag(d)}
 	return r
 }
 
@@ -183,13 +189,14 @@ func (r *c14Run) viol(kind, detail string) {
 			}
 		}
 	}
-	if ident == "" && r.recreated != "" && (kind == "undo-content-wrong" || kind == "redo-content-wrong") {
+	placementOnly := r.cur >= 0 && r.cur < len(r.bags) && contentBag(r.doc) == r.bags[r.cur]
+	if ident == "" && r.recreated != "" && (kind == "undo-content-wrong" || kind == "redo-content-wrong") && (placementOnly || r.editedAfterRecreation || r.redoneAfterRecreation) {
 		// recorded finding F-UNDO-AFTER-PURGE (upstream's open "GC vs undo", #664): an
 		// undo/redo of this history had to RE-CREATE a text piece / tree node that garbage
 		// collection had purged; where a recreated node goes is a guess once its tombstone
 		// (the only record of its place among concurrent insertions) is gone
 		ident = "undo-after-purge:recreated-" + r.recreated
-		detail += "\nan undo/redo of this history re-created a purged " + r.recreated + " node"
+		detail += "\nan undo/redo of this history re-created a purged " + r.recreated + " node; the content differs in placement only, or later calls worked on the misplaced content"
 	}
 	if ident != "" {
 		// a symptom of a recorded finding: counted every time, kept only a few times per case;
@@ -246,6 +253,10 @@ func (r *c14Run) do(st c14Step) bool {
 		switch {
 		case after == before+1:
 			r.states = append(r.states[:r.cur+1], canonDoc(r.doc))
+			r.bags = append(r.bags[:r.cur+1], contentBag(r.doc))
+			if r.recreated != "" {
+				r.editedAfterRecreation = true
+			}
 			r.cur++
 		case after == before:
 			// no history entry: the content must not have changed either, or undo skips an edit
@@ -255,6 +266,8 @@ func (r *c14Run) do(st c14Step) bool {
 			}
 			r.states = r.states[:r.cur+1]
 			r.states[r.cur] = canonDoc(r.doc)
+			r.bags = r.bags[:r.cur+1]
+			r.bags[r.cur] = contentBag(r.doc)
 		default:
 			r.viol("undo-depth-jumped", fmt.Sprintf("%s moved the undo depth from %d to %d", st.String(), before, after))
 			return false
@@ -303,6 +316,7 @@ func (r *c14Run) do(st c14Step) bool {
 			return false
 		}
 		r.states = []string{canonDoc(r.doc)}
+		r.bags = []string{contentBag(r.doc)}
 		r.cur = 0
 		r.res.AddStat("histories_started_on_existing_content", 1)
 	case "undo", "redo":
@@ -313,6 +327,10 @@ func (r *c14Run) do(st c14Step) bool {
 		r.steps = append(r.steps, st)
 		r.calls++
 		r.res.AddStat("undo_redo_calls", 1)
+		if r.recreated != "" {
+			// this call works on content an earlier call re-created (and possibly misplaced)
+			r.redoneAfterRecreation = true
+		}
 		var pre map[string]bool
 		if r.purged > 0 {
 			pre = r.remember()
